@@ -83,106 +83,99 @@ def calls(stmts, text: str) -> bool:
     return any(isinstance(st, ast.Expr) and ast.unparse(st.value) == text for st in stmts)
 
 
+DOC_OUTCOMES = ["malformed", "evalError", "celTrue", "celFalse", "otherT", "otherF"]
+NULL_OUTCOMES = ["evalError", "celTrue", "celFalse", "otherT", "otherF"]
+PD_CASES = [("pkg", None, "PKG"), ("doc", "DOC", None)]           # (--json-document, --json-package) as get_options leaves them
+RAISED = 1000                                                     # result code of a scenario that ends in an exception leaving the function
+
+
+def lean_bool(b: bool) -> str:
+    return "true" if b else "false"
+
+
+def res_code(r) -> int:
+    if type(r) is int and 0 <= r < RAISED:
+        return r
+    if isinstance(r, str) and r.startswith("raise "):
+        return RAISED
+    raise TranslationError(f"status is not a small non-negative integer: {r!r}")
+
+
+def trace_lean(tr: List[str]) -> str:
+    return lean_list([lean_str(x) for x in tr])
+
+
+def main_options(**kw):
+    o = {"verbose": 0, "interactive": False, "format": None, "expr": "EXPR", "arg": None, "null_input": False, "slurp": False,
+         "boolean": False, "document": None, "package": "PKG"}
+    o.update(kw)
+    return o
+
+
 def gen_cli_status() -> str:
+    from .c20_interp import run_function, Sym
     m = parse("src/celpy/__main__.py")
     out = [HEADER.format(src="src/celpy/__main__.py (main, process_json_doc, CLI_ARG_TYPES, get_options)"),
-           "namespace Cel.Gen.Cli\n"]
-    main = find_func(m.body, "main")
-    last = main.body[-1]
-    if not (isinstance(last, ast.Return) and isinstance(last.value, ast.Name)):
-        raise TranslationError("main: does not end with `return <status variable>`")
-    SUM = last.value.id          # the status variable (`summary`)
+           "namespace Cel.Gen.Cli\n",
+           "/-! behaviour tables of `process_json_doc` and `main`, obtained by running their current source text in the C20 interpreter\n"
+           "(py/verif/translate/c20_interp.py) on every scenario: trace of observable effects and returned status (1000 = an exception leaves). -/\n"]
 
-    # --- parse error ---------------------------------------------------------------------------------
-    t = find_try_with(main.body, "CELParseError")
-    out.append(f"def parseError : Nat := {plain_status(handler_of(t, 'CELParseError').body, None)}")
+    # --- process_json_doc: boolean_to_status x outcome --------------------------------------------------
+    rows = []
+    for b in (False, True):
+        for oc in DOC_OUTCOMES:
+            r = run_function(m, "process_json_doc",
+                             {"display": Sym("display"), "prgm": Sym("prgm"), "activation": Sym("activation"), "variable": Sym("variable"),
+                              "document": Sym("document"), "boolean_to_status": b},
+                             {"label": f"process_json_doc b={b} {oc}", "options": {}, "outcome": oc, "malformed": oc == "malformed", "in_main": False})
+            rows.append(f"({lean_bool(b)}, {lean_str(oc)}, {trace_lean(r['trace'])}, {res_code(r['result'])})")
+    out.append("def docTable : List (Bool × String × List String × Nat) :=\n  [" + ",\n   ".join(rows) + "]\n")
 
-    # --- the mode ladder: if options.null_input / elif options.slurp / else --------------------------
-    mode_if = None
-    for st in main.body:
-        if isinstance(st, ast.If) and ast.unparse(st.test) == "options.null_input":
-            mode_if = st
-    if mode_if is None:
-        raise TranslationError("main: `if options.null_input:` not found")
-    t = find_try_with(mode_if.body, "CELEvalError")
-    bool_if = None
-    for st in t.body:
-        if isinstance(st, ast.If) and ast.unparse(st.test) == "options.boolean":
-            bool_if = st
-    if bool_if is None:
-        raise TranslationError("main: `if options.boolean:` not found in the null-input branch")
-    inner = [st for st in bool_if.body if isinstance(st, ast.If) and is_bool_test(st.test)]
-    if len(inner) != 1:
-        raise TranslationError("main: isinstance(result_value, (BoolType, bool)) test not found")
-    tr, fa = bool_status(inner[0].body, SUM)
-    out.append(f"def nullTrue : Nat := {tr}\ndef nullFalse : Nat := {fa}")
-    out.append(f"def nullNonBool : Nat := {plain_status(inner[0].orelse, SUM)}")
-    out.append(f"def nullPlain : Nat := {plain_status(bool_if.orelse, SUM)}")
-    out.append(f"def nullPlainDisplays : Bool := {'true' if calls(bool_if.orelse, 'output_display(result_value)') else 'false'}")
-    out.append(f"def nullBooleanDisplays : Bool := {'true' if any('output_display' in ast.unparse(s) for s in bool_if.body) else 'false'}")
-    out.append(f"def nullEvalError : Nat := {plain_status(handler_of(t, 'CELEvalError').body, SUM)}")
+    def run_main(label, opts, **sc):
+        d = {"label": label, "options": opts, "outcome": "otherT", "in_main": True, "doc_status": 0}
+        d.update(sc)
+        return run_function(m, "main", {"argv": Sym("argv")}, d)
 
-    # slurp / ndjson
-    if not (len(mode_if.orelse) == 1 and isinstance(mode_if.orelse[0], ast.If) and ast.unparse(mode_if.orelse[0].test) == "options.slurp"):
-        raise TranslationError("main: `elif options.slurp:` not found")
-    slurp_if = mode_if.orelse[0]
-    slurp_ok = any(isinstance(st, ast.Assign) and ast.unparse(st.targets[0]) == SUM
-                   and isinstance(st.value, ast.Call) and ast.unparse(st.value.func) == "process_json_doc"
-                   for st in slurp_if.body) and any("sys.stdin.read()" in ast.unparse(st) for st in slurp_if.body)
-    out.append(f"def slurpIsOneDocument : Bool := {'true' if slurp_ok else 'false'}")
-    nd = slurp_if.orelse
-    init = plain_status(nd, SUM)
-    loops = [st for st in nd if isinstance(st, ast.For) and ast.unparse(st.iter) == "sys.stdin"]
-    if len(loops) != 1:
-        raise TranslationError("main: `for document in sys.stdin` not found")
-    body = loops[0].body
-    comb = "other"
-    if len(body) == 1 and isinstance(body[0], ast.Assign) and ast.unparse(body[0].targets[0]) == SUM:
-        v = body[0].value
-        if (isinstance(v, ast.Call) and ast.unparse(v.func) == "max" and len(v.args) == 2
-                and sorted(("summary" if ast.unparse(a) == SUM else
-                            ("doc" if isinstance(a, ast.Call) and ast.unparse(a.func) == "process_json_doc" else "?")) for a in v.args) == ["doc", "summary"]):
-            comb = "max"
-    out.append(f"def ndjsonInit : Nat := {init}")
-    out.append(f"def ndjsonCombine : String := {lean_str(comb)}")
-    # the last statement of main returns the summary
-    out.append("def mainReturnsSummary : Bool := true\n")
+    # --- main: parse error in every mode -----------------------------------------------------------------------
+    rows = []
+    for mode, o in (("n", main_options(null_input=True)), ("s", main_options(slurp=True)), ("j", main_options())):
+        for b in (False, True):
+            o2 = dict(o, boolean=b)
+            r = run_main(f"main parse error mode={mode}", o2, parse_error=True)
+            rows.append(f"({lean_str(mode)}, {lean_bool(b)}, {trace_lean(r['trace'])}, {res_code(r['result'])})")
+    out.append("def parseErrorTable : List (String × Bool × List String × Nat) :=\n  [" + ",\n   ".join(rows) + "]\n")
 
-    # --- process_json_doc ------------------------------------------------------------------------------
-    pj = find_func(m.body, "process_json_doc")
-    body = strip_doc(pj.body)
-    if len(body) != 1 or not isinstance(body[0], ast.Try):
-        raise TranslationError("process_json_doc: body is not a single try")
-    t = body[0]
-    tb = t.body
-    # order of effects: bind, evaluate, display, status
-    texts = [ast.unparse(s) for s in tb]
-    def idx(pred):
-        for i, s in enumerate(texts):
-            if pred(s):
-                return i
-        raise TranslationError("process_json_doc: statement not found")
-    i_bind = idx(lambda s: s.startswith("activation[variable] = json.loads(document, cls=CELJSONDecoder)"))
-    i_eval = idx(lambda s: s == "result_value = prgm.evaluate(activation)")
-    i_disp = idx(lambda s: s == "display(result_value)")
-    order_ok = i_bind < i_eval < i_disp
-    inner = [st for st in tb[i_disp + 1:] if isinstance(st, ast.If) and is_bool_test(st.test)]
-    if len(inner) != 1 or "boolean_to_status" not in ast.unparse(inner[0].test):
-        raise TranslationError("process_json_doc: `if boolean_to_status and isinstance(result_value, …)` not found after display")
-    tr, fa = bool_status(inner[0].body, None)
-    out.append(f"def docBindsEvaluatesDisplays : Bool := {'true' if order_ok else 'false'}")
-    out.append(f"def docTrue : Nat := {tr}\ndef docFalse : Nat := {fa}")
-    out.append(f"def docPlain : Nat := {plain_status(tb, None)}")
-    he = handler_of(t, "CELEvalError")
-    out.append(f"def docEvalError : Nat := {plain_status(he.body, None)}")
-    out.append(f"def docEvalErrorDisplaysNone : Bool := {'true' if calls(he.body, 'display(None)') else 'false'}")
-    hj = handler_of(t, "JSONDecodeError")
-    out.append(f"def docMalformed : Nat := {plain_status(hj.body, None)}")
-    out.append(f"def docMalformedDisplays : Bool := {'true' if any('display(' in ast.unparse(s) for s in hj.body) else 'false'}")
-    hs = []
-    for h in t.handlers:
-        hs += handler_names(h)
-    out.append("def docHandlers : List String := " + lean_list([lean_str(h) for h in hs]) + "\n")
+    # --- main --null-input: boolean x outcome --------------------------------------------------------------------
+    rows = []
+    for b in (False, True):
+        for oc in NULL_OUTCOMES:
+            r = run_main(f"main -n b={b} {oc}", main_options(null_input=True, boolean=b), outcome=oc)
+            rows.append(f"({lean_bool(b)}, {lean_str(oc)}, {trace_lean(r['trace'])}, {res_code(r['result'])})")
+    out.append("def nullTable : List (Bool × String × List String × Nat) :=\n  [" + ",\n   ".join(rows) + "]\n")
+
+    # --- main --slurp: boolean x (-d / -p) x status of the one document ---------------------------------------------
+    rows = []
+    for b in (False, True):
+        for pd, doc, pkg in PD_CASES:
+            for d in range(4):
+                r = run_main(f"main -s b={b} {pd} d={d}", main_options(slurp=True, boolean=b, document=doc, package=pkg), doc_status=d)
+                rows.append(f"({lean_bool(b)}, {lean_str(pd)}, {d}, {trace_lean(r['trace'])}, {res_code(r['result'])})")
+    out.append("def slurpTable : List (Bool × String × Nat × List String × Nat) :=\n  [" + ",\n   ".join(rows) + "]\n")
+
+    # --- main NDJSON: what precedes the loop, where the lines come from, the initial status, one step of the loop for every
+    #     (carried status, document status), and that main returns the carried status --------------------------------------
+    rows, srows = [], []
+    for b in (False, True):
+        for pd, doc, pkg in PD_CASES:
+            r = run_main(f"main ndjson b={b} {pd}", main_options(boolean=b, document=doc, package=pkg))
+            lp = r["loop"]
+            if lp is None or r["result"] != "LOOP":
+                raise TranslationError("main: NDJSON branch does not return the status carried by a loop over the input lines")
+            rows.append(f"({lean_bool(b)}, {lean_str(pd)}, {trace_lean(r['trace'])}, {lean_str(lp['source'])}, {res_code(lp['init'])})")
+            for s_, d, tr, x in lp["steps"]:
+                srows.append(f"({lean_bool(b)}, {lean_str(pd)}, {s_}, {d}, {trace_lean(tr)}, {res_code(x)})")
+    out.append("def ndjsonTable : List (Bool × String × List String × String × Nat) :=\n  [" + ",\n   ".join(rows) + "]\n")
+    out.append("def ndjsonStepTable : List (Bool × String × Nat × Nat × List String × Nat) :=\n  [" + ",\n   ".join(srows) + "]\n")
 
     # --- CLI_ARG_TYPES -------------------------------------------------------------------------------------
     table = None
@@ -221,9 +214,6 @@ def gen_cli_status() -> str:
     if not isinstance(default_pkg, str):
         raise TranslationError("get_options: default package not found")
     out.append(f"def defaultPackage : String := {lean_str(default_pkg)}")
-    src_main = ast.unparse(main)
-    var_ok = src_main.count("options.document or options.package") >= 2
-    out.append(f"def variableIsDocumentOrPackage : Bool := {'true' if var_ok else 'false'}")
     out.append("\nend Cel.Gen.Cli\n")
     return "\n".join(out)
 
